@@ -575,6 +575,8 @@ pub fn c03(tier: &str) -> Vec<Family> {
 // ---------------------------------------------------------------------------
 
 pub const TAGS_QUIESCENCE: &[&str] = &["half_handler", "pending_send", "delivery_lost", "sched_missed"];
+/// ... and the call itself returns normally (healthy benches: no panic out of the API, no bogus error).
+pub const TAGS_QUIESCENCE_WIDE: &[&str] = &["half_handler", "pending_send", "delivery_lost", "sched_missed", "api_panic", "error_class", "report_exact"];
 
 /// Pipeline A -> B -> C with capacity 1 everywhere, `n` items.
 fn pipeline(n: usize) -> Arc<BenchSpec> {
@@ -668,7 +670,16 @@ pub fn c04(tier: &str) -> Vec<Family> {
             ],
         ));
     }
-    vec![Family::new("deterministic_benches", TAGS_QUIESCENCE, sc).cap(cap).invariant().hang_violation()]
+    // The same property for worker counts up to the maximum the executor accepts (real threads).
+    let wide: Vec<Scenario> = vec![
+        scn("wide/fan_out", &big_fan(200, 0, false), vec![pe(0, 1, 1), pe(0, 1, 2), pe(0, 1, 3)]),
+        scn("wide/fan", &f, vec![pe(0, 1, 1), pe(0, 1, 2)]),
+    ];
+    let mut out = vec![Family::new("deterministic_benches", TAGS_QUIESCENCE, sc).cap(cap).invariant().hang_violation()];
+    for (name, threads) in [("workers_3", 3usize), ("workers_17", 17), ("workers_63", 63), ("workers_64", 64)] {
+        out.push(Family::new(name, TAGS_QUIESCENCE_WIDE, wide.clone()).uncontrolled(threads, 3).hang_violation());
+    }
+    out
 }
 
 // ---------------------------------------------------------------------------
